@@ -339,7 +339,7 @@ def packing_offsets(ctx):
         defs = roles.Defs(fn)
         S = roles.stores(fn.body, defs)
         loops = [s for s in fn.body if isinstance(s, ast.For)]
-        ok, msg = False, "no single loop over the spaces"
+        ok, msg = None, "no single loop over the spaces"
         if len(loops) == 1:
             l = loops[0]
             incs = [s for s in S if s.op == "Add=" and isinstance(s.tnode, ast.Name) and s.loops == (l,) and not s.guards]
@@ -433,7 +433,7 @@ def generalized(ctx):
     defs = roles.Defs(fn)
     S = roles.stores(fn.body, defs)
     acc = [s for s in S if isinstance(s.tnode, ast.Subscript) and len(s.loops) == 2]
-    ok, msg = False, "no single accumulation inside the row / element loop nest"
+    ok, msg = None, "no single accumulation inside the row / element loop nest"
     rets = [s for s in S if s.op == "return" and isinstance(s.vnode, ast.Name)]
     if len(acc) == 1 and acc[0].op == "Add=" and not acc[0].guards and len(rets) == 1:
         a = acc[0]
